@@ -13,12 +13,13 @@ def generate(tier, rng):
         e.ci = i % 3 == 1
         for k, v in enumerate(e.variants):
             v.ci = [None, True, False][(i + k) % 3]
+    enums += strcorpus.build_soup(rng, tier, 'C02', derives=derives, feats=['parse', 'names', 'roundtrip'], n=30 if tier == 'quick' else 300)
     info = strcorpus.query_model(enums)
     c = Corpus()
     for e in enums:
         c.add(e, in_domain=info[e.id]['nooverlap'])
         for v in e.variants:
-            if v.dis:
+            if v.dis or v.default or v.tr:
                 continue
             keys = ','.join(rustgen.name_keys(e, roundtrip=True, v=v))
             c.op(e.id, 'roundtrip %s %s' % (hx(v.ident), keys), namecorpus.naming_class(v) + '/' + v.kind + '/ci=%s' % v.ci)
